@@ -177,29 +177,7 @@ def check (spec0):
              ]
     if t3 != t2:
         forms.append (('all-obj+all-obj', [['all', t2], ['all', t3]], allof (t2) + allof (t3)))
-    zdiag = {}
-    for name, att, want in forms:
-        if not want:
-            continue
-        sl = copy.deepcopy (spec)
-        sl ['src']   = [dict (p = [1], v = [1.0, 0.0])]
-        sl ['loads'] = [dict (k = 'z', z = [50.0, -20.0], att = att)]
-        ml = gen.build (sl)
-        got = sorted (p.idx + 1 for l in ml.loads for p in l.pulses)
-        mon ['loads'] = mon.get ('loads', 0) + 1
-        if got != sorted (want):
-            bad ('loads', 'load-pulses-' + name, '--attach-load %s loads pulses %s, expected %s' % (att, got, sorted (want)))
-        r2  = report.parse (ml.loads_as_mininec ())
-        lst = sorted (int (x ['pulse']) for x in r2 ['loads'])
-        if lst != got or int (r2.get ('nloads', -1)) != len (got):
-            bad ('loads', 'listing-load', 'load listing names %s (NUMBER OF LOADS %s), loaded pulses %s' % (lst, r2.get ('nloads'), got))
-        try:
-            observe.solve (ml)
-        except common.Repo_Crash as e:
-            if 'LinAlgError' in e.key:
-                continue
-            raise
-        zdiag [name] = (np.array (ml.Z).diagonal ().copy (), ml.sources [0].impedance)
+    def extra_stages (name, sl, want, att, zdiag, ml, k1, t1):
         if '+' in name or name == 'obj':
             # every attachment acts: the same structure with one load object per attachment (absolute pulse
             # numbers) gives the same matrix; and a load registered after a first solve acts like one given at once
@@ -224,6 +202,34 @@ def check (spec0):
             za, zb = complex (m0.sources [0].impedance), complex (ml.sources [0].impedance)
             if abs (za - zb) > 1e-9 * abs (zb) and abs (zb - z0) > 1e-6 * abs (zb):
                 bad ('loads.late', 'load-after-solve', 'load registered on pulse %d of object %d after a first solve: feed impedance %r, with the load from the start %r (unloaded %r)' % (k1, t1, za, zb, z0))
+    zdiag = {}
+    for name, att, want in forms:
+        if not want:
+            continue
+        sl = copy.deepcopy (spec)
+        sl ['src']   = [dict (p = [1], v = [1.0, 0.0])]
+        sl ['loads'] = [dict (k = 'z', z = [50.0, -20.0], att = att)]
+        ml = gen.build (sl)
+        got = sorted (p.idx + 1 for l in ml.loads for p in l.pulses)
+        mon ['loads'] = mon.get ('loads', 0) + 1
+        if got != sorted (want):
+            bad ('loads', 'load-pulses-' + name, '--attach-load %s loads pulses %s, expected %s' % (att, got, sorted (want)))
+        r2  = report.parse (ml.loads_as_mininec ())
+        lst = sorted (int (x ['pulse']) for x in r2 ['loads'])
+        if lst != got or int (r2.get ('nloads', -1)) != len (got):
+            bad ('loads', 'listing-load', 'load listing names %s (NUMBER OF LOADS %s), loaded pulses %s' % (lst, r2.get ('nloads'), got))
+        try:
+            observe.solve (ml)
+        except common.Repo_Crash as e:
+            if 'LinAlgError' in e.key:
+                continue
+            raise
+        zdiag [name] = (np.array (ml.Z).diagonal ().copy (), ml.sources [0].impedance)
+        try:
+            extra_stages (name, sl, want, att, zdiag, ml, k1, t1)
+        except common.Repo_Crash as e:
+            if 'LinAlgError' not in e.key:
+                raise
     if 'abs' in zdiag and 'obj' in zdiag:
         if not np.array_equal (zdiag ['abs'][0], zdiag ['obj'][0]) or zdiag ['abs'][1] != zdiag ['obj'][1]:
             bad ('loads', 'load-forms-differ', 'absolute and per-object attachment give different matrices')
